@@ -98,10 +98,24 @@ def _run(ch, kind, k, window=0.0, variant="blackout"):
             _register_client_observers(rig, calls)
         if variant == "rferr-slow-client" and event.name in ("ERROR_RF_ERROR", "RUNNING_SPA_WATER_CARE_ERROR"):
             return _slow(0.35)  # the client's handler awaits: the consumer is suspended inside its callback
+        if variant == "yielding-client":
+            return _slow(0.05)  # a client whose handler does a little I/O on EVERY event
         return None
 
     rig.man.on_event = on_event
-    if variant == "blackout":
+    if variant == "send-error":
+        # one datagram send of the connection fails in steady state (5 s after the start): asyncio calls error_received
+        state = {"armed": False, "done": False}
+        rig.loop.call_at(rig.loop.time() + 5.0, lambda: state.__setitem__("armed", True))
+
+        def fates(src, dst, data):
+            if state["armed"] and not state["done"] and dst == SPA_ADDR and src[0] == rig.net.CLIENT_IP:
+                state["done"] = True
+                return ["error"]
+            return None
+
+        rig.net.fates = fates
+    if variant in ("blackout", "yielding-client"):
         # the baseline has a blackout after 150 s of steady state
         rig.loop.call_at(rig.loop.time() + 150.0, lambda: rig.peer.set_mode("blackout"))
     else:
@@ -127,6 +141,7 @@ def _run(ch, kind, k, window=0.0, variant="blackout"):
     locating = st == S.LOCATING_SPAS
     rig.loop.timer_choices_enabled = True
     why = None
+    registered[0] = True  # observers are those the client registered BEFORE the injection; a later connection is a new story
     t_inj = rig.loop.time()
     if kind == "reset":
         t = rig.spawn(rig.man.async_reset(), name="HARNESS:inject")
@@ -287,6 +302,11 @@ def run(ctx):
     jobs += [((kind, k, 0.0, "rferr-slow-client"), ()) for kind in ("reset", "exit")
              for k in range(n2[0], n2[1], 1 if not ctx.quick else 2)]
     ctx.set("rferr_window_steps", list(n2))
+    # third baseline: a client whose handler yields on every event; exit/reset at every step through discovery and handshake
+    upto = marks.get("CONNECTED", 700) + 60
+    jobs += [((kind, k, 0.0, "yielding-client"), ()) for kind in ("exit", "reset") for k in range(0, upto, 1 if not ctx.quick else 3)]
+    # fourth baseline: a failed datagram send in steady state, then reset/exit at steps from the failure on (strided)
+    jobs += [((kind, k, 0.0, "send-error"), ()) for kind in ("reset", "exit") for k in range(n2[0] - 40, n2[0] + 9000, 331 if ctx.quick else 97)]
     by_state = {}
     outcomes = set()
     evals = 0
